@@ -385,7 +385,7 @@ IDENTS = ["uid", "age", "country", "x", "Y", "_z", "order_id", "index", "not_act
 STRINGS = ["A", "B", "control", "variant_a", "02134", "inf", "1e5", "", "it's", "C:\\temp", "caf\u00e9", "a b", "nan", "None", "x,y", "{}", "%s", "(", "#", "\\", "\\n", "a\\", "True"]
 INTS = [0, 1, 2, 3, 18, 21, 100, 9007199254740993, 10 ** 30, -1, -5]
 FLOATS = [0.5, 1.5, 3.4, 0.1, 2.0, -0.25, 1e-9, 1e9]
-WEIGHTS = [1, 2, 3, 0, 0.5, 3.4, 5, 1e-9, 1e9, 0.1, 10]
+WEIGHTS = [1, 2, 3, 0, 0.5, 3.4, 5, 1e-9, 1e9, 0.1, 10, 1234567, 7654321, 0.1234567]
 
 
 def gen_value(rnd, kinds="isf"):
